@@ -798,7 +798,9 @@ mod os {
                 return Ok(Some(exit_status));
             }
 
-            let deadline = Instant::now() + dur;
+            // A duration too large to be added to the clock (Duration::MAX)
+            // never runs out: no deadline then, instead of a panic.
+            let deadline = Instant::now().checked_add(dur);
             // double delay at every iteration, maxing at 100ms
             let mut delay = Duration::from_millis(1);
 
@@ -807,12 +809,15 @@ mod os {
                 if let Finished(exit_status) = self.child_state {
                     return Ok(Some(exit_status));
                 }
-                let now = Instant::now();
-                if now >= deadline {
-                    return Ok(None);
+                let mut nap = delay;
+                if let Some(deadline) = deadline {
+                    let now = Instant::now();
+                    if now >= deadline {
+                        return Ok(None);
+                    }
+                    nap = min(delay, deadline.duration_since(now));
                 }
-                let remaining = deadline.duration_since(now);
-                ::std::thread::sleep(min(delay, remaining));
+                ::std::thread::sleep(nap);
                 delay = min(delay * 2, Duration::from_millis(100));
             }
         }
